@@ -168,7 +168,7 @@ func diffKind(got, want map[int][]string) string {
 			if normFault(a, b) != b {
 				wa, wb := firstWord(a), firstWord(b)
 				// what about the class of a recovered value
-				if wa == wb && (wa == "d-recover" || wa == "d-recover-named" || wa == "d-indirect-recover" || wa == "d-indirect-net" || wa == "top" || wa == "g-top" || wa == "deep-recover") {
+				if wa == wb && (wa == "d-recover" || wa == "d-recover-twice" || wa == "d-recover-named" || wa == "d-indirect-recover" || wa == "d-indirect-net" || wa == "top" || wa == "g-top" || wa == "deep-recover") {
 					return wa + " class " + classKind(lastWord(a)) + " want " + classKind(lastWord(b))
 				}
 				return "got " + wa + " want " + wb
@@ -457,7 +457,8 @@ func faultName(ev string) string {
 	}
 	names := [...]string{"panic-string", "panic-error", "panic-int", "panic-struct", "panic-interpreted-error", "nil-deref", "index-out-of-range",
 		"slice-out-of-range", "div-by-zero", "nil-map-write", "failed-type-assertion", "close-of-closed-channel", "host-function-panic", "panic-host-struct",
-		"panic-in-sort-callback", "panic-in-strings-map-callback", "os-exit-restricted", "log-fatal-restricted"}
+		"panic-in-sort-callback", "panic-in-strings-map-callback", "os-exit-restricted", "log-fatal-restricted",
+		"fault-in-if-condition", "fault-in-for-condition", "fault-in-composite-literal-operand", "fault-in-assignment-lhs", "fault-in-call-argument", "fault-in-return-operand", "fault-in-switch-tag"}
 	var k int
 	fmt.Sscanf(ev[i:], "kind=%d", &k)
 	if k >= 0 && k < len(names) {
@@ -470,16 +471,16 @@ func faultName(ev string) string {
 //
 // The plan space of small call trees is enumerated completely (the
 // fault_enumeration part of C06): level A = one activation with up to two
-// deferred calls (26 defer variants: 22 plain forms + the recovering literal in
-// its 4 modes) and each of 37 bodies (return; each of 18 faults; result set then
-// each of 18 faults); level B = the same root calling one child that has up to
-// one deferred call and one of the 37 bodies. Entry point = index mod 5.
+// deferred calls (27 defer variants: 22 plain forms + the recovering literal in
+// its 5 modes) and each of 51 bodies (return; each of 25 faults; result set then
+// each of 25 faults); level B = the same root calling one child that has up to
+// one deferred call and one of the 51 bodies. Entry point = index mod 5.
 
 var c06DeferVariants = func() [][]int {
 	var v [][]int
 	for k := 0; k < 23; k++ {
 		if k == 5 {
-			for m := 0; m < 4; m++ {
+			for m := 0; m < 5; m++ {
 				v = append(v, []int{5, m})
 			}
 			continue
@@ -491,10 +492,10 @@ var c06DeferVariants = func() [][]int {
 
 var c06Bodies = func() [][]int {
 	b := [][]int{{0}}
-	for k := 0; k < 18; k++ {
+	for k := 0; k < 25; k++ {
 		b = append(b, []int{3, k})
 	}
-	for k := 0; k < 18; k++ {
+	for k := 0; k < 25; k++ {
 		b = append(b, []int{7, 1, k})
 	}
 	return b
@@ -561,7 +562,7 @@ func init() {
 		if job.Tier == "quick" {
 			n = a
 		}
-		return map[string]any{"enumerated_subspace": fmt.Sprintf("case indices 0..%d are the complete enumeration of small call trees (level A: one activation, <=2 deferred calls x 37 bodies = %d plans; level A+B adds one child with <=1 deferred call = %d plans); this tier enumerates %d; the enumeration is complete iff fault_kinds_fired[enumerated-plans] equals that number", n-1, a, ab, n)}
+		return map[string]any{"enumerated_subspace": fmt.Sprintf("case indices 0..%d are the complete enumeration of small call trees (level A: one activation, <=2 deferred calls x 51 bodies = %d plans; level A+B adds one child with <=1 deferred call = %d plans); this tier enumerates %d; the enumeration is complete iff fault_kinds_fired[enumerated-plans] equals that number", n-1, a, ab, n)}
 	}, Case: func(t *testing.T, c *CaseCtx, idx int) {
 		a, ab := C06EnumCount()
 		n := ab
